@@ -571,7 +571,7 @@ spifopt_parse(int argc, char *argv[])
 
         /* Boolean options may or may not have a value... */
         if (val_ptr) {
-            if (SPIFOPT_OPT_IS_BOOLEAN(j) && !is_boolean_value(val_ptr)) {
+            if (SPIFOPT_OPT_IS_BOOLEAN(j) && (!islong || !is_boolean_value(val_ptr))) {
                 val_ptr = NULL;
             } else if (SPIFOPT_OPT_IS_ABSTRACT(j) && is_valid_option(val_ptr)) {
                 val_ptr = NULL;
